@@ -122,3 +122,46 @@ Definition syminfo_ok (entsize : Z) (rows : list irow) : bool :=
 (* what iterating the syminfo section yields: (name of symbol i, [si_boundto; si_flags]) for i >= 1 *)
 Definition syminfo_views (names : list (list Z)) (rows : list irow) : list symview :=
   tl (map (fun p => (fst p, [fst (fst (snd p)); snd (fst (snd p))])) (combine names rows)).
+
+(* ---- the names of the enumerated field values (gABI figures 4-16..4-19 and the special section
+        indices; STB_NUM/STT_NUM from glibc's elf.h; STT_RELC/STT_SRELC from binutils; STV_EXPORTED,
+        STV_SINGLETON, STV_ELIMINATE and the SYMINFO_BT_* bindings from the Solaris ABI).  A value
+        without a name is reported as the integer. *)
+Definition spec_st_bind : list (Z * string) :=
+  [(0, "STB_LOCAL"); (1, "STB_GLOBAL"); (2, "STB_WEAK"); (3, "STB_NUM"); (10, "STB_LOOS");
+   (12, "STB_HIOS"); (13, "STB_LOPROC"); (15, "STB_HIPROC")]%string.
+Definition spec_st_type : list (Z * string) :=
+  [(0, "STT_NOTYPE"); (1, "STT_OBJECT"); (2, "STT_FUNC"); (3, "STT_SECTION"); (4, "STT_FILE");
+   (5, "STT_COMMON"); (6, "STT_TLS"); (7, "STT_NUM"); (8, "STT_RELC"); (9, "STT_SRELC");
+   (10, "STT_LOOS"); (12, "STT_HIOS"); (13, "STT_LOPROC"); (15, "STT_HIPROC")]%string.
+Definition spec_st_local : list (Z * string) := [].
+Definition spec_st_visibility : list (Z * string) :=
+  [(0, "STV_DEFAULT"); (1, "STV_INTERNAL"); (2, "STV_HIDDEN"); (3, "STV_PROTECTED");
+   (4, "STV_EXPORTED"); (5, "STV_SINGLETON"); (6, "STV_ELIMINATE")]%string.
+Definition spec_st_shndx : list (Z * string) :=
+  [(0, "SHN_UNDEF"); (0xfff1, "SHN_ABS"); (0xfff2, "SHN_COMMON")]%string.
+Definition spec_si_boundto : list (Z * string) :=
+  [(0xfffc, "SYMINFO_BT_EXTERN"); (0xfffd, "SYMINFO_BT_NONE"); (0xfffe, "SYMINFO_BT_PARENT");
+   (0xffff, "SYMINFO_BT_SELF")]%string.
+
+Fixpoint enum_lookup (t : list (Z * string)) (v : Z) : option string :=
+  match t with
+  | [] => None
+  | (k, n) :: r => if k =? v then Some n else enum_lookup r v
+  end.
+Definition opt_string_eqb (a b : option string) : bool :=
+  match a, b with
+  | Some x, Some y => String.eqb x y
+  | None, None => true
+  | _, _ => false
+  end.
+(* every entry of either table is what the other one answers for its value *)
+Definition table_eqv (a b : list (Z * string)) : bool :=
+  forallb (fun kv => opt_string_eqb (enum_lookup b (fst kv)) (Some (snd kv))) a &&
+  forallb (fun kv => opt_string_eqb (enum_lookup a (fst kv)) (Some (snd kv))) b.
+(* which table decodes which field of Elf_Sym / Elf_Sunw_Syminfo (no field is strict: unknown values pass) *)
+Definition spec_sym_binds : list (string * list (Z * string)) :=
+  [("st_info.bind", spec_st_bind); ("st_info.type", spec_st_type); ("st_other.local", spec_st_local);
+   ("st_other.visibility", spec_st_visibility); ("st_shndx", spec_st_shndx)]%string.
+Definition spec_syminfo_binds : list (string * list (Z * string)) :=
+  [("si_boundto", spec_si_boundto)]%string.
